@@ -162,7 +162,7 @@ def all_instances(tier):
 def write_gen(sc, tier, extra=(), small=None):
     # RUSTFLAGS reach the nucleo-matcher dependency too: its harness module needs its generated files
     import matcher_props
-    matcher_props.write_gen(sc, "quick")
+    matcher_props.write_gen(sc, "quick", small=True if small is None else small)
     fams = {}
     for i in list(all_instances(tier)) + list(extra):
         if i.family and (small is None or getattr(i, "small", True) == small):
